@@ -203,7 +203,45 @@ Record J (s : state) : Prop := mkJ {
   j_pm : forall k r, In (k, r) (s_pm s) ->
             k < length (s_g s) /\ forall t, In t (new_parent_ids r) -> t < length (s_g s);
   j_norm : v_norm (s_v s) = true -> Norm (pg (s_g s)) (v_heads (s_v s));
+  j_pm_sorted : sorted (pm_keys (s_pm s));
 }.
+
+Lemma aset_keys {V} k (v : V) l k' :
+  In k' (map fst (aset Nat.eqb Nat.ltb k v l)) <-> k' = k \/ In k' (map fst l).
+Proof.
+  induction l as [|[k2 v2] t IH]; cbn [aset map fst In]; [intuition|].
+  destruct (k =? k2) eqn:E.
+  - apply Nat.eqb_eq in E. subst. cbn [map fst In]. intuition.
+  - destruct (k <? k2); cbn [map fst In]; [intuition|]. rewrite IH. intuition.
+Qed.
+
+Lemma aset_sorted {V} k (v : V) l : sorted (map fst l) -> sorted (map fst (aset Nat.eqb Nat.ltb k v l)).
+Proof.
+  induction l as [|[k2 v2] t IH]; cbn [aset map fst]; intros S; [split; [intros y []|exact I]|].
+  destruct S as [S1 S2].
+  destruct (k =? k2) eqn:E.
+  - apply Nat.eqb_eq in E. subst. cbn [map fst]. split; assumption.
+  - apply Nat.eqb_neq in E. destruct (k <? k2) eqn:L; cbn [map fst].
+    + apply Nat.ltb_lt in L. split; [|split; assumption].
+      intros y [<-|Hy]; [assumption|]. specialize (S1 y Hy). lia.
+    + apply Nat.ltb_ge in L. split; [|now apply IH].
+      intros y Hy. apply aset_keys in Hy. destruct Hy as [->|Hy]; [lia|now apply S1].
+Qed.
+
+Lemma sorted_keys_unique {V} (l : list (nat * V)) k r r' :
+  sorted (map fst l) -> In (k, r) l -> In (k, r') l -> r = r'.
+Proof.
+  induction l as [|[k2 v2] t IH]; cbn [map fst]; intros S H1 H2; [contradiction|].
+  destruct S as [S1 S2].
+  assert (F : forall v, In (k2, v) t -> False).
+  { intros v Hv. assert (In k2 (map fst t)) by (apply in_map_iff; exists (k2, v); auto).
+    specialize (S1 k2 H). lia. }
+  destruct H1 as [H1|H1]; destruct H2 as [H2|H2].
+  - congruence.
+  - injection H1 as -> ->. exfalso. eauto.
+  - injection H2 as -> ->. exfalso. eauto.
+  - auto.
+Qed.
 
 Lemma J_init : J init_state.
 Proof.
@@ -219,6 +257,7 @@ Proof.
   - intros _. split; [discriminate|]. split.
     + intros x y [<-|[]] [<-|[]] _. reflexivity.
     + reflexivity.
+  - exact I.
 Qed.
 
 (** Changing only the head set, to a superset-covering sorted set. *)
@@ -465,6 +504,7 @@ Proof.
     split; [lia|]. intros t Ht. specialize (B t Ht). lia.
   - intros E. destruct (j_norm s Js E) as [N1 [N2 N3]]. split; [assumption|]. split; [|assumption].
     rewrite pg_app in *. now apply antichain_snoc.
+  - apply (j_pm_sorted s Js).
 Qed.
 
 Lemma J_pm_set s k r : J s -> k < length (s_g s) ->
@@ -472,8 +512,9 @@ Lemma J_pm_set s k r : J s -> k < length (s_g s) ->
   J (set_pm s (pm_set k r (s_pm s))).
 Proof.
   intros Js L R. destruct Js. constructor; cbn [set_pm s_g s_v s_pm]; auto.
-  intros k' r' H. apply (aset_In Nat.eqb Nat.ltb) in H.
-  destruct H as [E|H]; [injection E as -> ->; auto|eauto].
+  - intros k' r' H. apply (aset_In Nat.eqb Nat.ltb) in H.
+    destruct H as [E|H]; [injection E as -> ->; auto|eauto].
+  - now apply aset_sorted.
 Qed.
 
 Lemma J_write_commit s c src : J s -> c_parents c <> [] ->
